@@ -101,6 +101,8 @@ type pathState struct {
 	em        *Emitter
 	nondets   []nondetRec
 	newWork   [][]int
+	kinds     []byte // kind of each decision taken (b=branch, c=choose, v=value)
+	skinds    []byte // kinds of the scripted prefix
 	stats     PathStats
 	noBranch  int
 	asserts   int // obligations checked on this path (beyond the replayed prefix)
@@ -112,6 +114,42 @@ type pathState struct {
 }
 
 func (p *pathState) replaying() bool { return p.pos < len(p.script) }
+
+// note records the kind of the decision just appended and checks it against the scripted prefix.
+func (p *pathState) note(kind byte) {
+	k := len(p.kinds)
+	if k < len(p.skinds) && p.skinds[k] != kind {
+		panic(pathAbort{"engine", fmt.Sprintf("replay divergence at decision %d: scripted %c, executed %c", k, p.skinds[k], kind)})
+	}
+	p.kinds = append(p.kinds, kind)
+}
+
+// alt builds an alternative script (decisions so far + d) with its kinds, encoded as one []int:
+// the kinds are appended after a -1<<62 marker.
+func (p *pathState) alt(d int, kind byte) []int {
+	a := append(append([]int{}, p.decisions...), d)
+	a = append(a, scriptKindMarker)
+	for _, k := range p.kinds {
+		a = append(a, int(k))
+	}
+	a = append(a, int(kind))
+	return a
+}
+
+const scriptKindMarker = -1 << 62
+
+func splitScript(s []int) ([]int, []byte) {
+	for i, v := range s {
+		if v == scriptKindMarker {
+			ks := make([]byte, len(s)-i-1)
+			for j, k := range s[i+1:] {
+				ks[j] = byte(k)
+			}
+			return s[:i], ks
+		}
+	}
+	return s, nil
+}
 
 func (p *pathState) flush() {
 	for _, c := range p.pc[p.flushed:] {
@@ -202,6 +240,25 @@ func (p *pathState) modelValue(i *interpreter, t *Term) (uint64, bool) {
 	return v, true
 }
 
+// scriptedModelValue is modelValue made deterministic under re-execution: the value picked the
+// first time is stored in the decision script and reused when the prefix is replayed.
+func (p *pathState) scriptedModelValue(i *interpreter, t *Term) (uint64, bool) {
+	if p.replaying() {
+		v := p.script[p.pos]
+		p.pos++
+		p.decisions = append(p.decisions, v)
+		p.note('v')
+		return uint64(v), true
+	}
+	v, ok := p.modelValue(i, t)
+	if !ok {
+		return 0, false
+	}
+	p.decisions = append(p.decisions, int(v))
+	p.note('v')
+	return v, true
+}
+
 func (s *Solver) getTermValue(t *Term) (uint64, error) {
 	if t.IsConst() {
 		return t.K, nil
@@ -271,6 +328,7 @@ func (fr *frame) branch(c *Term, why string) bool {
 		d := p.script[p.pos]
 		p.pos++
 		p.decisions = append(p.decisions, d)
+		p.note('b')
 		if d == 1 {
 			p.pc = append(p.pc, c)
 		} else {
@@ -298,10 +356,10 @@ func (fr *frame) branch(c *Term, why string) bool {
 			d = 1
 		}
 		if v != Unsat {
-			alt := append(append([]int{}, p.decisions...), 1-d)
-			p.newWork = append(p.newWork, alt)
+			p.newWork = append(p.newWork, p.alt(1-d, 'b'))
 		}
 		p.decisions = append(p.decisions, d)
+		p.note('b')
 		if side {
 			p.pc = append(p.pc, c)
 		} else {
@@ -313,6 +371,7 @@ func (fr *frame) branch(c *Term, why string) bool {
 	switch vT {
 	case Unsat:
 		p.decisions = append(p.decisions, 0)
+		p.note('b')
 		p.pc = append(p.pc, i.tb.Not(c))
 		return false
 	case Unknown:
@@ -323,10 +382,10 @@ func (fr *frame) branch(c *Term, why string) bool {
 		p.incon = append(p.incon, fmt.Sprintf("solver unknown on branch (%s) in %s", why, fr.fn))
 	}
 	if vF != Unsat {
-		alt := append(append([]int{}, p.decisions...), 0)
-		p.newWork = append(p.newWork, alt)
+		p.newWork = append(p.newWork, p.alt(0, 'b'))
 	}
 	p.decisions = append(p.decisions, 1)
+	p.note('b')
 	p.pc = append(p.pc, c)
 	return true
 }
@@ -400,12 +459,12 @@ func (fr *frame) choose(name string, n int) int {
 		p.pos++
 	} else {
 		for k := n - 1; k >= 1; k-- {
-			alt := append(append([]int{}, p.decisions...), k)
-			p.newWork = append(p.newWork, alt)
+			p.newWork = append(p.newWork, p.alt(k, 'c'))
 		}
 		d = 0
 	}
 	p.decisions = append(p.decisions, d)
+	p.note('c')
 	return d
 }
 
@@ -712,7 +771,8 @@ func (h *harnessRun) runPath(script []int, solver *Solver) (newWork [][]int) {
 	if rt := e.Prog.ImportedPackage("runtime"); rt != nil {
 		i.runtimeErrorString = rt.Type("errorString").Object().Type()
 	}
-	p := &pathState{h: h, script: script, solver: solver, em: NewEmitter(), reached: map[string]bool{}}
+	script, skinds := splitScript(script)
+	p := &pathState{h: h, script: script, skinds: skinds, solver: solver, em: NewEmitter(), reached: map[string]bool{}}
 	i.p = p
 	solver.Send("(push 1)\n")
 	status := "completed"
@@ -826,10 +886,25 @@ func panicString(i *interpreter, v value) string {
 		if s, ok := v.v.(string); ok {
 			return s
 		}
-		if v.t != nil {
+		if ss, ok := v.v.(symString); ok {
+			b := make([]byte, len(ss.b))
+			for k, c := range ss.b {
+				if cc, ok := c.(uint8); ok {
+					b[k] = cc
+				} else {
+					b[k] = '?'
+				}
+			}
+			return string(b)
+		}
+		if _, isBasic := v.t.Underlying().(*types.Basic); v.t != nil && !isBasic {
 			// error or Stringer?
 			for _, mname := range []string{"Error", "String"} {
-				if m := i.prog.LookupMethod(v.t, nil, mname); m != nil {
+				sel := i.prog.MethodSets.MethodSet(v.t).Lookup(nil, mname)
+				if sel == nil {
+					continue
+				}
+				if m := i.prog.MethodValue(sel); m != nil {
 					var out string
 					func() {
 						defer func() { recover() }()
